@@ -31,7 +31,7 @@ CHECKS = {
 CHECKS.update({
  "C06": ("brokerclient", "exploration",
          "history monitor at the client boundary (one recorder per request Deferred + AlreadyCalledError trap) against the server's frame log; differential re-run for non-interference",
-         "The real _KafkaBrokerClient/KafkaProtocol and KafkaBootstrapProtocol run over an in-memory network against a scripted raw server (late, duplicate, swapped, unsolicited and oversize frames; arbitrary chunking; cuts; cancels, disconnect, close, also from inside completion callbacks). Each request must fire exactly once with the first delivered frame bearing its id, or with CancelledError/ClientError for the right reason; removing unsolicited frames from the plan must not change any outcome; a request pending although the server answered everything and accepted every connection for 60 s is a violation. Also requests the transport cannot write (must fail once, siblings untouched) and request-table situations generated on purpose: a connection lost while cancelled entries sit among live ones, close() failing unsent requests whose callbacks cancel siblings or close again, a request / cancel / close() in the reactor turn right behind disconnect(), a queue flushed on connect whose no-reply requests cancel or disconnect from their callbacks, correlation ids at the edges of int32 and frames too short to carry one; on a TLS-like transport (deliveries continue after loseConnection) a reply right behind disconnect() and frame-shaped bytes behind an impossible length prefix.",
+         "The real _KafkaBrokerClient/KafkaProtocol and KafkaBootstrapProtocol run over an in-memory network against a scripted raw server (late, duplicate, swapped, unsolicited and oversize frames; arbitrary chunking; cuts; cancels, disconnect, close, also from inside completion callbacks). Each request must fire exactly once with the first delivered frame bearing its id, or with CancelledError/ClientError for the right reason; removing unsolicited frames from the plan must not change any outcome; a request pending although the server answered everything and accepted every connection for 60 s is a violation. Also requests the transport cannot write (must fail once, siblings untouched) and request-table situations generated on purpose: a connection lost while cancelled entries sit among live ones, close() failing unsent requests whose callbacks cancel siblings or close again, a request / cancel / close() in the reactor turn right behind disconnect(), a queue flushed on connect whose no-reply requests cancel or disconnect from their callbacks, correlation ids at the edges of int32 and frames too short to carry one; on a TLS-like transport (deliveries continue after loseConnection) a reply right behind disconnect() and frame-shaped bytes behind an impossible length prefix; the only request cancelled while its connection is still being set up.",
          "simnet models Twisted TCP transport semantics (no dataReceived after loseConnection, writes in the same turn still flushed); bootstrap protocol exempt from non-interference by design", "3/C06"),
  "C10": ("brokerclient", "fault_enumeration",
          "online trace checker replayed over the unified event log (issues, cancels, fires, attempts, per-connection writes, losses, quiescent points); cut points enumerated",
@@ -89,7 +89,7 @@ CHECKS.update({
          "situations classified from Consumer attributes (stratification only); the C02 stream oracle stays on", "3/C13"),
  "C08": ("client-e2e", "exploration",
          "online monitor wrapped around the real client's metadata merge (harness-side): every metadata response, as recorded by the simulated cluster and paired by correlation id, is compared with the client's view right after it was merged, across generated histories of cluster mutations, refreshes and requests; connect hook on the simulated network for dialled addresses; wire inspection after not-leader / unknown-partition answers and failed sends; producer + consumers under finite fault sequences with bounded-recovery oracle",
-         "After each metadata response: partitions, leader (node, host, port) per partition, topic error and broker addresses of every covered topic equal the response, no stale partition entry survives, topics not in the response are unchanged, and after a full refresh that lists brokers every broker client for a missing node is gone from client.clients, its connection was asked to close (or its pending connect cancelled) within that reactor event and it never dials again; every later dial of a broker client goes to the address last advertised for its node. After a not-leader/unknown-partition answer (also behind another error in the same response list) or a failed send (also acks=0) a metadata request covering the topic is on the wire before the next request for it, which then goes where that answer says. After any generated finite sequence of leader moves, broker restarts and address changes: sends issued later succeed within max_req_attempts produce attempts, every acknowledged send is in the log, and each consumer's deliveries equal its partition log within 40 virtual seconds. Also the group's coordinator as cached routing: after a failed send to it the next group request is preceded by a lookup and follows it; a coordinator left out of a full refresh is still reached; a coordinator readdressed and announced by a lookup is dialled at the new address. One defect found here was fixed in /repo.",
+         "After each metadata response: partitions, leader (node, host, port) per partition, topic error and broker addresses of every covered topic equal the response, no stale partition entry survives, topics not in the response are unchanged, and after a full refresh that lists brokers every broker client for a missing node is gone from client.clients, its connection was asked to close (or its pending connect cancelled) within that reactor event and it never dials again; every later dial of a broker client goes to the address last advertised for its node. After a not-leader/unknown-partition answer (also behind another error in the same response list) or a failed send (also acks=0) a metadata request covering the topic is on the wire before the next request for it, which then goes where that answer says. After any generated finite sequence of leader moves, broker restarts and address changes: sends issued later succeed within max_req_attempts produce attempts, every acknowledged send is in the log, and each consumer's deliveries equal its partition log within 40 virtual seconds. Also the group's coordinator as cached routing: after a failed send to it the next group request is preceded by a lookup and follows it; a coordinator left out of a full refresh is still reached; a coordinator readdressed and announced by a lookup is dialled at the new address; a failed lookup repeated from its own errback is a new lookup on the wire. One defect found here was fixed in /repo.",
          "a response never names a leader missing from its own broker list; topics absent from a full refresh are not judged; one bootstrap address stays reachable", "3/C08"),
  "C16": ("group-e2e", "exploration",
          "online trace monitor over 1-4 real ConsumerGroup members (own clients) against the simulated group coordinator: every request stamped where the member's client issues it, every reply where it reaches the client, every partition consumer where afkak._group constructs it (recording subclass installed from the harness), every processor call; membership histories with joins, stops, silent kills, evictions, coordinator moves, partition growth, rejected commits and slow processors",
